@@ -1,4 +1,4 @@
-import Blots.Lemmas.EvalEnv
+import Blots.Lemmas.EvalFresh
 /-
   C03 — Bindings are immutable and scoped: a bound name never changes or leaks.
 
@@ -22,6 +22,18 @@ import Blots.Lemmas.EvalEnv
   lives in `ES.names` (keyed by `id`); it is the only thing an evaluation can change about an
   existing function, and it is not part of the value (`veq` ignores it; it only selects the
   self-reference name inside calls and the printed form).
+
+  Section 7 is about that display name: `NamesExt s s'` (Lemmas/EvalNames.lean) relates the
+  (`nextId`, `names`) of two states: cells are never given back, and `names` only grows at the
+  front by entries for cells `≥ s.nextId` that had no name.  All fifteen functions of the
+  evaluator satisfy it, whatever the outcome (`names_of_function_cells_only_grow`).  So a name
+  once given never changes, and an evaluation started in `s` never names (or renames) a cell
+  `< s.nextId`: a function is named once, by the assignment whose right-hand side created it.
+  `StateOk s` (Lemmas/EvalIds.lean, preserved by all fifteen functions: Lemmas/EvalFresh.lean):
+  every function value reachable from the environment (captured scopes included) lives in a
+  cell `< s.nextId`, and so does every named cell.  The root state of a session satisfies it.
+  With it, the cells named by an evaluation are exactly among those it created
+  (`s.nextId ≤ id < s'.nextId`), and the function cells inside a bound value keep their names.
 
   Not modelled here: the grammar (PEG).  It refuses `if then else true false null and or not
   do return output` as identifiers, so `not = 1`, `do = 1`, `return = 1`, `output = 1` never
@@ -294,6 +306,163 @@ theorem failed_evaluation_keeps_frames (ops : NumOps) (fuel depth : Nat) (e : Ex
   rw [hr] at h1
   exact ⟨top', h1, h2⟩
 
+/-! #### 7. the display name of a function cell: given once, by the assignment that creates it -/
+
+/-- the invariant, for every function of the evaluator (`eval`, argument lists, list items,
+    record entries, do-block statements, calls, the higher-order built-ins and their callbacks,
+    the calling operators), every fuel, depth, input and outcome (ok, error, panic, out of fuel):
+    `nextId` does not decrease and `names` only grows at the front, by entries for cells
+    `≥ s.nextId` that had no name -/
+theorem names_of_function_cells_only_grow (ops : NumOps) (fuel : Nat) : NamesStep ops fuel :=
+  names_group ops fuel
+
+/-- function cells are never given back -/
+theorem next_cell_never_decreases (ops : NumOps) (fuel depth : Nat) (e : Expr) (s : ES) :
+    s.nextId ≤ (eval ops fuel depth e s).2.nextId :=
+  (eval_names ops fuel depth e s).next
+
+/-- a name once given never changes -/
+theorem function_names_are_stable (ops : NumOps) (fuel depth : Nat) (e : Expr) (s : ES)
+    (id : Nat) (n : String) (h : nameOf s.names id = some n) :
+    nameOf (eval ops fuel depth e s).2.names id = some n :=
+  (eval_names ops fuel depth e s).keep h
+
+/-- the same through a call (of a function value or a built-in, callbacks included) and through
+    an operator that calls functions -/
+theorem function_names_are_stable_call (ops : NumOps) (fuel : Nat) (fv this : Value) (args : List Value)
+    (depth : Nat) (s : ES) (id : Nat) (n : String) (h : nameOf s.names id = some n) :
+    nameOf (callFn ops fuel fv this args depth s).2.names id = some n :=
+  ((names_group ops fuel).callFn fv this args depth s).keep h
+
+theorem function_names_are_stable_operator (ops : NumOps) (fuel depth : Nat) (op : BinOp) (a b : Value)
+    (s : ES) (id : Nat) (n : String) (h : nameOf s.names id = some n) :
+    nameOf (evalBin ops fuel depth op a b s).2.names id = some n :=
+  ((names_group ops fuel).evalBin depth op a b s).keep h
+
+/-- an evaluation never names or renames a function that existed before it started: for a
+    cell `id < s.nextId` the name — or the absence of a name — is the same afterwards -/
+theorem evaluation_never_renames_existing_functions (ops : NumOps) (fuel depth : Nat) (e : Expr) (s : ES)
+    (id : Nat) (hid : id < s.nextId) :
+    nameOf (eval ops fuel depth e s).2.names id = nameOf s.names id :=
+  (eval_names ops fuel depth e s).old hid
+
+theorem call_never_renames_existing_functions (ops : NumOps) (fuel : Nat) (fv this : Value)
+    (args : List Value) (depth : Nat) (s : ES) (id : Nat) (hid : id < s.nextId) :
+    nameOf (callFn ops fuel fv this args depth s).2.names id = nameOf s.names id :=
+  ((names_group ops fuel).callFn fv this args depth s).old hid
+
+/-- in particular an assignment `x = e` whose right-hand side merely returns an existing
+    function (`g = f`, `g = fs[0]`, `g = pick(f)`) does not name it -/
+theorem assignment_does_not_name_an_existing_function (ops : NumOps) (fuel depth : Nat) (x : String)
+    (e : Expr) (s : ES) (id : Nat) (hid : id < s.nextId) (h : nameOf s.names id = none) :
+    nameOf (eval ops fuel depth (.assign x e) s).2.names id = none := by
+  rw [evaluation_never_renames_existing_functions ops fuel depth _ s id hid]; exact h
+
+/-- every entry of the names list after an evaluation was there before, or is for a cell
+    created since -/
+theorem new_names_are_for_new_cells (ops : NumOps) (fuel depth : Nat) (e : Expr) (s : ES)
+    (p : Nat × String) (hp : p ∈ (eval ops fuel depth e s).2.names) : p ∈ s.names ∨ s.nextId ≤ p.1 :=
+  (eval_names ops fuel depth e s).added hp
+
+/-- the assignment that creates a function names it: when the right-hand side of a top-level
+    or nested assignment `x = e` returns a function cell created by `e` itself that has no
+    name yet, the cell is called `x` from then on -/
+theorem creating_assignment_names_the_function (ops : NumOps) (fuel depth : Nat) (x : String) (e : Expr)
+    (s s1 : ES) (id : Nat) (ps : List LArg) (body : Expr) (sc : Frame) (ha : Assignable x)
+    (hx : alreadyDefined depth s.env x = false)
+    (he : eval ops fuel depth e s = (.ok (.lambda id ps body sc), s1))
+    (hx1 : alreadyDefined depth s1.env x = false)
+    (hnew : s.nextId ≤ id) (hnone : nameOf s1.names id = none) :
+    nameOf (eval ops (fuel + 1) depth (.assign x e) s).2.names id = some x := by
+  rw [eval, if_neg (by simp [ha.1]), if_neg (by have := ha.2; simpa using this), if_neg (by simp [hx]), he]
+  simp [hx1, createdSince, hnew, setNameIfLambda, hnone, nameOf_cons]
+
+/-- sessions: the relation holds from any point of a session to any later point -/
+theorem session_names_only_grow (ops : NumOps) (fuel : Nat) (s : ES) (pre post : List Expr) :
+    NamesExt (runStmts ops fuel s pre).2 (runStmts ops fuel s (pre ++ post)).2 := by
+  rw [runStmts_append]
+  exact runStmts_names ops fuel post _
+
+/-- a function named at some point of a session has that name after any further statements,
+    failing or not -/
+theorem function_names_are_stable_session (ops : NumOps) (fuel : Nat) (s : ES) (pre post : List Expr)
+    (id : Nat) (n : String) (h : nameOf (runStmts ops fuel s pre).2.names id = some n) :
+    nameOf (runStmts ops fuel s (pre ++ post)).2.names id = some n :=
+  (session_names_only_grow ops fuel s pre post).keep h
+
+/-- no later statement of a session names or renames a function that exists at some point -/
+theorem session_never_renames_existing_functions (ops : NumOps) (fuel : Nat) (s : ES)
+    (pre post : List Expr) (id : Nat) (hid : id < (runStmts ops fuel s pre).2.nextId) :
+    nameOf (runStmts ops fuel s (pre ++ post)).2.names id = nameOf (runStmts ops fuel s pre).2.names id :=
+  (session_names_only_grow ops fuel s pre post).old hid
+
+/-- the binding and the names together: once `x` is visible with value `v`, after any further
+    statements `x` is still visible with the same value tree (ids of function cells
+    included), and every function cell that existed at that point has the same display name
+    (or is still nameless) -/
+theorem root_binding_and_function_names_are_permanent (ops : NumOps) (fuel : Nat) (s : ES)
+    (pre post : List Expr) (x : String) (v : Value)
+    (h : envGet (runStmts ops fuel s pre).2.env x = some v) :
+    envGet (runStmts ops fuel s (pre ++ post)).2.env x = some v ∧
+    ∀ id, id < (runStmts ops fuel s pre).2.nextId →
+      nameOf (runStmts ops fuel s (pre ++ post)).2.names id = nameOf (runStmts ops fuel s pre).2.names id :=
+  ⟨root_binding_is_permanent ops fuel s pre post x v h,
+   fun id hid => session_never_renames_existing_functions ops fuel s pre post id hid⟩
+
+/-! #### 8. freshness: named cells and reachable function values are cells already created -/
+
+/-- the invariant `StateOk` is kept by every function of the evaluator, whatever the outcome,
+    and a successful result only contains function cells created so far -/
+theorem fresh_state_is_preserved_everywhere (ops : NumOps) (fuel : Nat) : FreshStep ops fuel :=
+  fresh_group ops fuel
+
+theorem fresh_state_is_preserved (ops : NumOps) (fuel depth : Nat) (e : Expr) (s : ES) (hs : StateOk s) :
+    StateOk (eval ops fuel depth e s).2 :=
+  (eval_fresh ops fuel depth e s hs).1
+
+/-- every named cell is a cell that has been created (`NamesFresh`), after any evaluation -/
+theorem named_cells_exist (ops : NumOps) (fuel depth : Nat) (e : Expr) (s : ES) (hs : StateOk s)
+    (p : Nat × String) (hp : p ∈ (eval ops fuel depth e s).2.names) :
+    p.1 < (eval ops fuel depth e s).2.nextId :=
+  (eval_fresh ops fuel depth e s hs).1.names p hp
+
+/-- a successful result only contains function cells created so far -/
+theorem result_cells_exist (ops : NumOps) (fuel depth : Nat) (e : Expr) (s s' : ES) (v : Value)
+    (hs : StateOk s) (he : eval ops fuel depth e s = (.ok v, s')) (id : Nat) (hid : v.hasId id = true) :
+    id < s'.nextId := by
+  have := (eval_fresh ops fuel depth e s hs).2
+  rw [he] at this
+  exact lt_of_hasId v (this v rfl) hid
+
+/-- an evaluation names only function cells that it created itself: a new entry of the names
+    list is for a cell `s.nextId ≤ id < s'.nextId` that had no name before -/
+theorem evaluation_names_only_functions_it_created (ops : NumOps) (fuel depth : Nat) (e : Expr) (s : ES)
+    (hs : StateOk s) (p : Nat × String) (hp : p ∈ (eval ops fuel depth e s).2.names) (hnew : p ∉ s.names) :
+    s.nextId ≤ p.1 ∧ p.1 < (eval ops fuel depth e s).2.nextId := by
+  refine ⟨?_, named_cells_exist ops fuel depth e s hs p hp⟩
+  rcases new_names_are_for_new_cells ops fuel depth e s p hp with h | h
+  · exact absurd h hnew
+  · exact h
+
+/-- sessions started in a fresh state stay fresh -/
+theorem session_state_stays_fresh (ops : NumOps) (fuel : Nat) (s : ES) (stmts : List Expr) (hs : StateOk s) :
+    StateOk (runStmts ops fuel s stmts).2 :=
+  runStmts_stateOk ops fuel stmts s hs
+
+/-- the value observed through a bound name is unchanged by later statements INCLUDING the
+    display name of every function cell that occurs inside it (directly, in a list or record,
+    or in a captured scope) -/
+theorem bound_value_keeps_its_function_names (ops : NumOps) (fuel : Nat) (s : ES) (pre post : List Expr)
+    (x : String) (v : Value) (hs : StateOk s)
+    (h : envGet (runStmts ops fuel s pre).2.env x = some v) :
+    envGet (runStmts ops fuel s (pre ++ post)).2.env x = some v ∧
+    ∀ id, v.hasId id = true →
+      nameOf (runStmts ops fuel s (pre ++ post)).2.names id = nameOf (runStmts ops fuel s pre).2.names id := by
+  refine ⟨root_binding_is_permanent ops fuel s pre post x v h, fun id hid => ?_⟩
+  have hpre := runStmts_stateOk ops fuel pre s hs
+  exact session_never_renames_existing_functions ops fuel s pre post id
+    (lt_of_hasId v (idsLt_envGet hpre.env h) hid)
+
 /-! #### examples: the hypotheses are satisfiable, the statements are not vacuous -/
 
 set_option linter.unusedSimpArgs false
@@ -370,5 +539,74 @@ example : eval toyOps 10 0 (.list [it (.assign "a" (.num F64.one)), it (.ident "
 /-- the evaluator alone does accept `not` as a name (the grammar never lets it through) -/
 example : (eval toyOps 3 0 (.assign "not" (.num F64.one)) root0).1 = .ok (.num F64.one) := by
   simp +decide [eval, root0, envGet, lookupAL, envInsert, insertAL, setNameIfLambda, createdSince, envContains]
+
+/-- `f = x => x; g = f`: the function keeps the name `f` (before the fix of the naming rule the
+    second statement could not rename it either, but `g = f` with `f` nameless could name it) -/
+example : (runStmts toyOps 10 root0 [.assign "f" (.lambda [.req "x"] (.ident "x")), .assign "g" (.ident "f")]).2
+    = { env := [[("f", .lambda 1 [.req "x"] (.ident "x") []), ("g", .lambda 1 [.req "x"] (.ident "x") [])]],
+        nextId := 2, names := [(1, "f")] } := by
+  simp +decide [runStmts, eval, root0, envGet, lookupAL, envInsert, insertAL, setNameIfLambda, createdSince,
+    envContains, nameOf, freeVars, captureScope, LArg.name, alreadyDefined]
+
+/-- hypotheses of `function_names_are_stable_session` / `session_never_renames_existing_functions`
+    / `root_binding_and_function_names_are_permanent` on that session (pre = `f = x => x`) -/
+example : nameOf (runStmts toyOps 10 root0 [.assign "f" (.lambda [.req "x"] (.ident "x"))]).2.names 1 = some "f" ∧
+    1 < (runStmts toyOps 10 root0 [.assign "f" (.lambda [.req "x"] (.ident "x"))]).2.nextId ∧
+    envGet (runStmts toyOps 10 root0 [.assign "f" (.lambda [.req "x"] (.ident "x"))]).2.env "f"
+      = some (.lambda 1 [.req "x"] (.ident "x") []) := by
+  simp +decide [runStmts, eval, root0, envGet, lookupAL, envInsert, insertAL, setNameIfLambda, createdSince,
+    envContains, nameOf, freeVars, captureScope, LArg.name, alreadyDefined]
+
+/-- a nameless function in a record, then bound through the record: `r = {a: x => x}; g = r.a`
+    leaves the cell nameless (hypotheses of `assignment_does_not_name_an_existing_function`:
+    cell 1 exists and has no name before `g = r.a`) -/
+example : (runStmts toyOps 10 root0
+      [.assign "r" (.record [.mk [] (.static "a") (.lambda [.req "x"] (.ident "x")) none]),
+       .assign "g" (.dot (.ident "r") "a")]).2
+    = { env := [[("r", .record [("a", .lambda 1 [.req "x"] (.ident "x") [])]),
+                 ("g", .lambda 1 [.req "x"] (.ident "x") [])]],
+        nextId := 2, names := [] } := by
+  simp +decide [runStmts, eval, evalEntries, root0, envGet, lookupAL, envInsert, insertAL, setNameIfLambda,
+    createdSince, envContains, nameOf, freeVars, captureScope, LArg.name, alreadyDefined]
+
+/-- hypotheses of `creating_assignment_names_the_function` (`f = x => x` in the root state) -/
+example : Assignable "f" ∧ alreadyDefined 0 root0.env "f" = false ∧
+    eval toyOps 5 0 (.lambda [.req "x"] (.ident "x")) root0
+      = (.ok (.lambda 1 [.req "x"] (.ident "x") []), { root0 with nextId := 2 }) ∧
+    root0.nextId ≤ 1 ∧ nameOf root0.names 1 = none := by
+  refine ⟨by decide, by decide, ?_, by decide, by decide⟩
+  simp +decide [eval, root0, freeVars, captureScope, LArg.name, envGet, lookupAL]
+
+/-- a nested assignment inside the right-hand side names its own function; the outer one then
+    finds it named: `g = (f = x => x)` gives the cell the name `f`, not `g` -/
+example : (eval toyOps 10 0 (.assign "g" (.assign "f" (.lambda [.req "x"] (.ident "x")))) root0).2.names
+    = [(1, "f")] := by
+  simp +decide [eval, root0, envGet, lookupAL, envInsert, insertAL, setNameIfLambda, createdSince,
+    envContains, nameOf, freeVars, captureScope, LArg.name, alreadyDefined]
+
+/-- the root state of a session is fresh (hypothesis `StateOk s` of section 8), and so is a state
+    with a function bound and named -/
+example : StateOk root0 := root0_stateOk
+example : StateOk { env := [[("f", .lambda 1 [.req "x"] (.ident "x") [])]], nextId := 2, names := [(1, "f")] } :=
+  ⟨by simp [envLt, Value.idsLtRec, Value.idsLt], fun p hp => by simp at hp; subst hp; decide⟩
+
+/-- a state that is NOT fresh (a function value in a cell that was never created): there
+    `g = f` names cell 100 although the right-hand side created nothing — `StateOk` is needed
+    in `evaluation_names_only_functions_it_created` -/
+example : (eval toyOps 5 0 (.assign "g" (.ident "f"))
+      { env := [[("f", .lambda 100 [.req "x"] (.ident "x") [])]], nextId := 1, names := [] }).2.names
+    = [(100, "g")] := by
+  simp +decide [eval, envGet, lookupAL, envInsert, insertAL, setNameIfLambda, createdSince, envContains, nameOf,
+    alreadyDefined]
+
+/-- hypotheses of `bound_value_keeps_its_function_names`: after `r = {a: x => x}` the name `r`
+    is bound to a record in which cell 1 occurs -/
+example : envGet (runStmts toyOps 10 root0
+      [.assign "r" (.record [.mk [] (.static "a") (.lambda [.req "x"] (.ident "x")) none])]).2.env "r"
+      = some (.record [("a", .lambda 1 [.req "x"] (.ident "x") [])]) ∧
+    (Value.record [("a", .lambda 1 [.req "x"] (.ident "x") [])]).hasId 1 = true := by
+  refine ⟨?_, by simp [Value.hasId, Value.hasIdRec]⟩
+  simp +decide [runStmts, eval, evalEntries, root0, envGet, lookupAL, envInsert, insertAL, setNameIfLambda,
+    createdSince, envContains, nameOf, freeVars, captureScope, LArg.name, alreadyDefined]
 
 end Blots.C03
